@@ -194,6 +194,7 @@ class Expression(Node):
         super().__init__(**kwargs)
         self.text = text
         self.escapes = escapes
+        self.escapes_lineno_offset = escapes_lineno_offset
         self.escapes_code = ast.ArgumentList(
             escapes,
             lineno_offset=escapes_lineno_offset,
